@@ -40,6 +40,10 @@ R10h retiring a request does not abandon its command: the concluded-invocation g
      carries the request's instance id) the gate finalizes it (_finalize_command) - two requests issued under one instance id
      (a macro body walked by the main program and a Watch one tick apart) conclude the invocation while the second request's
      command is running.
+R10i nothing that Stop cancels stays open: every path on which that part of _cancel_command retires a request *without* recording
+     Cancelled has taken the true outcome of the conclusive-state predicate on the request's instance id (it has its final state) or of
+     the shared-instance-id test (another executing request carries the invocation, C15 R15i) - "its command has started and is gone"
+     is not such a reason: the instance may have been taken away under the name by the request handled just before.
 """
 from __future__ import annotations
 
@@ -369,8 +373,12 @@ def run(ctx) -> None:
     has_pred_test = any(n.kind == "test" and any(isinstance(c, ast.Call) and any(is_conclusive_predicate(t_) for t_ in ctx.res.resolve_call(c, ecf, cha=False))
                                                   for c in ast.walk(n.ast)) for n in ge0.nodes)
     if not gate_ok and has_pred_test:
-        raise AnchorError("_execute_command tests a conclusive-state predicate but the gate shape is not recognised (C12 R12g reports it)")
-    if not gate_ok:
+        # a weakened gate is C12's finding (R12g); for C10 it means: requests may reach the executors although concluded, nothing is orphaned
+        ctx.ok("R10h", inst + " (the gate is weakened - reported by C12 R12g - so no request is retired in front of the executors on that path)", trivial=True)
+        gate_ok = None
+    if gate_ok is None:
+        pass
+    elif not gate_ok:
         ctx.ok("R10h", inst + " (no gate: requests are not retired before the executors)", trivial=True)
     else:
         ge = cfg_of(ecf)
@@ -384,3 +392,40 @@ def run(ctx) -> None:
                      "`Wait: 0.5s`, `Call macro: M` - both walkers issue LongC under one instance id, the second request cancels the first "
                      "one's command (Cancelled on the shared id) and starts its own, which the gate orphans in the next tick: Stop and "
                      "Restart complete with LongC still in uod.command_instances (initialized twice, finalized once)")
+
+    # ---- R10i
+    ctx.rule("R10i", "a request the cancel pass retires without a state has concluded or is executed by another request")
+    from ..cmdgate import retire_branch_analysis
+    f_, g_, marks_, dones_, skips_ = retire_branch_analysis(prog, ctx.res)
+    ctx.analysed(f_)
+    rpar_ = f_.node.args.args[1].arg
+    inst = "_cancel_command: retiring a request with no command instance without Cancelled needs a reason that concludes it"
+    bad = None
+    n_skip = 0
+    for pth, outs in skips_:
+        # only the part for requests of uod commands (the part that also records states); a request of another kind is just logged
+        if not marks_ or not any(m for m in marks_):
+            continue
+        n_skip += 1
+        reason = False
+        for txt, lab in outs:
+            concl = "is_instance_concluded(" in txt and f"{rpar_}.instance_id" in txt
+            shared = "instance_id" in txt and ("cmd_executing" in txt or "currently_executing" in txt) and txt.lstrip().startswith("any(")
+            if (concl or shared) and lab == "T":
+                reason = True
+            # a conjunction that is true makes each conjunct true
+            if lab == "T" and " and " in txt and ("is_instance_concluded(" in txt and f"{rpar_}.instance_id" in txt):
+                reason = True
+        if not reason and bad is None:
+            bad = (pth, outs)
+    if not marks_:
+        ctx.ok("R10i", inst + " (that part records no state at all)", trivial=True)
+    elif bad is None:
+        ctx.ok("R10i", inst, {"rule": "R10i", "paths_without_state": n_skip})
+    else:
+        pth, outs = bad
+        ctx.fail("R10i", f_, pth[-1].ast, inst, f"the request is retired with no state recorded on a path whose tests ({[o[0][:50] + ' -> ' + o[1] for o in outs][-2:]}) "
+                 "do not establish that its invocation has concluded: with the executing list [Stop, ReqB(X, new), ReqA(X, running)] Stop handles "
+                 "ReqB first, finds ReqA's instance under the name X, cancels and finalizes it and marks ReqB cancelled; ReqA then has no "
+                 "instance and is retired unmarked - its command was started and killed by Stop but stays `started` in the run log sent at run "
+                 "end", pth)
